@@ -158,8 +158,8 @@ class Gen:
             if r["v"][0] == "int":
                 out.append([rn])
         for rn, r in self.mir["grefs"].items():
-            if r["v"][0] == "int":
-                out.append([rn])
+            if r["v"][0] == "int" and rn not in self.mir["cells"][tp(frm)]:
+                out.append([rn])     # (a sibling cells of that name would shadow it)
         for p in self.mir["sp"]:
             if list(p) == list(frm):
                 continue
@@ -169,7 +169,7 @@ class Gen:
                         if sp_:
                             out.append(sp_ + [rn])
             for rn, r in self.mir["grefs"].items():
-                if r["v"][0] == "int":
+                if r["v"][0] == "int" and rn not in self.mir["cells"][tp(p)]:
                     for sp_ in self.space_paths(frm, p)[:2]:
                         if sp_:
                             out.append(sp_ + [rn])
@@ -328,6 +328,10 @@ class Gen:
         if k < 0.25:
             # model-level reference (new or changed)
             name = rng.choice(list(m["grefs"]) or ["g0"]) if rng.random() < 0.7 else rng.choice(["g0", "g1", "r0"])
+            if rng.random() < 0.25:
+                # a model-level name that is also a cells somewhere: the sibling
+                # cells must keep shadowing it (Look: cells, refs, model refs)
+                name = rng.choice(sorted(self.sigs))
             if self.refkind.get(name, "int") != "int":
                 return None
             self.refkind[name] = "int"
